@@ -347,3 +347,92 @@ class RestartIterFunc(object):
         if obs['n'] != len(inp['priorities']) or not obs['same_set']:
             bad |= set(['post[1]', 'post[2]', 'post[3]'])
         return bad
+
+
+@register('circus.arbiter:Arbiter.reap_processes')
+class ArbiterReapProcesses(object):
+    """the real Arbiter.reap_processes over a fake child table: os.waitpid(-1, WNOHANG) hands out the terminated
+    children in the given order (watched workers and children no watcher lists), then 0 while live children remain,
+    ECHILD when there is none; Watcher.reap_process is the real one"""
+    def from_model(self, m):
+        return []
+
+    def enumerate(self):
+        # each child: (kind, state) kind 'w' = listed worker of watcher 0, 'x' = child no watcher lists
+        for kids in ([], [('w', 'dead')], [('w', 'alive')], [('x', 'dead'), ('w', 'dead')], [('w', 'dead'), ('x', 'dead')],
+                     [('x', 'dead'), ('w', 'dead'), ('w', 'alive')], [('w', 'dead'), ('w', 'dead'), ('x', 'alive')],
+                     [('x', 'dead'), ('x', 'dead'), ('w', 'dead'), ('w', 'dead')]):
+            yield {'kids': [list(k) for k in kids]}
+
+    def run(self, inp):
+        import errno
+        import circus.arbiter as A
+        import circus.watcher as W
+        from replay.adapters_watcher import FakeKernel, FakeProcess
+        a = bare_arbiter(['w0'])
+        w = a.watchers[0]
+        w._status = 'active'
+        fk = FakeKernel()
+        table = []      # [pid, kind, state, reaped]
+        for i, (kind, state) in enumerate(inp['kids']):
+            pid = 700 + i
+            table.append([pid, kind, state, False])
+            if kind == 'w':
+                p = FakeProcess(fk, pid, dies_at=0.0 if state == 'dead' else None)
+                p.status = 1 if state == 'dead' else 0
+                p.returncode = lambda: 0
+                w.processes[pid] = p
+        events = []
+        w.notify_event = lambda topic, msg: events.append((topic, msg.get('process_pid')))
+
+        def fake_waitpid(pid, options):
+            if pid == -1:
+                left = [t for t in table if not t[3]]
+                if not left:
+                    raise OSError(errno.ECHILD, 'No child processes')
+                for t in left:
+                    if t[2] == 'dead':
+                        t[3] = True
+                        return (t[0], 0)
+                return (0, 0)
+            for t in table:
+                if t[0] == pid and not t[3]:
+                    if t[2] == 'dead':
+                        t[3] = True
+                        return (pid, 0)
+                    return (0, 0)
+            raise OSError(errno.ECHILD, 'No child processes')
+
+        class OSP(object):
+            def __init__(self, real):
+                self._real = real
+            waitpid = staticmethod(fake_waitpid)
+
+            def __getattr__(self, n):
+                return getattr(self._real, n)
+        saved = (A.os, W.os)
+        A.os, W.os = OSP(saved[0]), OSP(saved[1])
+        obs = {}
+        try:
+            a.reap_processes()
+        except Exception as e:
+            obs['raised'] = type(e).__name__
+        finally:
+            A.os, W.os = saved
+        obs['zombies_left'] = [t[0] for t in table if t[2] == 'dead' and not t[3]]
+        obs['reap_events'] = sorted(p for t, p in events if t == 'reap')
+        obs['alive_reaped'] = [t[0] for t in table if t[2] == 'alive' and t[3]]
+        return obs
+
+    def check(self, inp, obs):
+        bad = set()
+        if 'raised' in obs:
+            if obs['raised'] != 'OSError':
+                bad.add('noescape')
+            return bad
+        if obs['zombies_left']:
+            bad.add('post[no-zombie-left]')
+        dead = [700 + i for i, (k, s) in enumerate(inp['kids']) if s == 'dead']
+        if any(p not in dead for p in obs['reap_events']):
+            bad.add('post[reaped-were-dead]')
+        return bad
